@@ -196,3 +196,24 @@ def program_descs(tier):
 MONITOR_VARIANTS = [("sub", True, False, True), ("sub_rl", True, True, True), ("flat_noreg", False, False, False),
                     ("flat_rl", False, True, False)]
 MONITOR_FORMS = ["bare", "ifelse", "sw_default"]
+
+
+# ------------------------------------------------------------------------------------------ Print arguments
+# argument kinds of the Print-argument family: ("v", name) an Amaranth value, ("f", name) a Format object,
+# ("s", text) a plain str, ("i", n) a plain int
+PRINT_ARGS = [("v", "a"), ("v", "b"), ("v", "c"), ("v", "amb"), ("f", "hex"), ("f", "brace"),
+              ("s", "txt"), ("s", "{"), ("s", "}}"), ("s", "{0}"), ("s", "a{b}c"), ("i", 42), ("i", -7)]
+PRINT_ARGS_SMALL = [("v", "a"), ("v", "b"), ("f", "brace"), ("s", "{"), ("s", "txt"), ("i", 42)]
+# None = keyword not passed (Python's defaults " " and "\n")
+PRINT_SEPS = [None, "", ", ", "\n", "{", "}", "{{", "}}", "{}", "{0}", "a{b"]
+PRINT_ENDS = [None, "", ", ", "\n", "{", "}", "{{", "}}", "{}", "{0}", "}\n", "{x}!"]
+PRINT_VALUES = [(0, 0, 0), (15, -8, 1), (10, -1, 0), (9, 7, 1)]          # (a: unsigned(4), b: signed(4), c: unsigned(1))
+
+
+def print_cases(tier):
+    """-> list of (args tuple, sep, end): all argument tuples of length 1-2 (quick: length 3 over a reduced
+    kind list, thorough: over all kinds) x all sep x all end"""
+    tuples = [(a,) for a in PRINT_ARGS] + [(a, b) for a in PRINT_ARGS for b in PRINT_ARGS]
+    three = PRINT_ARGS if tier == "thorough" else PRINT_ARGS_SMALL
+    tuples += [(a, b, c) for a in three for b in three for c in three]
+    return [(t, sep, end) for t in tuples for sep in PRINT_SEPS for end in PRINT_ENDS]
